@@ -1,5 +1,6 @@
 From Coq Require Import NArith Bool List.
 From CppUVerif Require Import C06_Model C06_Proofs C06_Sim C06_Period C06_Examples C06_Wrap C06_Plug C06_PlugProofs C06_PlugExamples.
+From CppUVerif Require Import C06_Edge C06_EdgeProofs C06_EdgeSim C06_EdgeThms.
 Theorem C06_category_exact : C06_category_exact_stmt. Proof. exact category_exact. Qed.
 Print Assumptions C06_category_exact.
 Theorem C06_user_writes_silent : C06_user_writes_silent_stmt. Proof. exact user_writes_silent. Qed.
@@ -15,8 +16,13 @@ Print Assumptions C06_poison_before_free.
 Theorem C06_block_removed_after_report : C06_block_removed_after_report_stmt. Proof. exact block_removed_after_report. Qed.
 Print Assumptions C06_block_removed_after_report.
 (* the scenario language of the check (plugin level: every form of operator new / delete, the malloc wrappers, the overload switches) *)
-Theorem C06_run_meets_spec : C06_prun_meets_spec_stmt. Proof. exact prun_meets_spec. Qed.
+(* both kinds of scenario of the check: the plugin-level language, and the sizes at the edges (C06_Edge.v) *)
+Theorem C06_run_meets_spec : C06_yrun_meets_yspec_stmt. Proof. exact yrun_meets_yspec. Qed.
 Print Assumptions C06_run_meets_spec.
+Theorem C06_plugin_run_meets_spec : C06_prun_meets_spec_stmt. Proof. exact prun_meets_spec. Qed.
+Print Assumptions C06_plugin_run_meets_spec.
+Theorem C06_edge_run_meets_spec : C06_erun_meets_espec_stmt. Proof. exact erun_meets_espec. Qed.
+Print Assumptions C06_edge_run_meets_spec.
 (* the detector-level language underneath it *)
 Theorem C06_detector_run_meets_spec : C06_run_meets_spec_stmt. Proof. exact run_meets_spec. Qed.
 Print Assumptions C06_detector_run_meets_spec.
@@ -39,6 +45,29 @@ Theorem C06_form_pair_by_family : C06_form_pair_by_family_stmt. Proof. exact for
 Print Assumptions C06_form_pair_by_family.
 Theorem C06_old_language_embedded : C06_old_language_embedded_stmt. Proof. exact old_language_embedded. Qed.
 Print Assumptions C06_old_language_embedded.
+
+(* ------------------------------------------------------------------------------------------------------------------
+   Sizes at the edges (C06_Edge.v): sizes are unbounded N, the user bytes of a block are runs.
+   ------------------------------------------------------------------------------------------------------------------ *)
+(* sizeLeavesRoomForAccountingInformation as translated from MemoryLeakDetector.cpp on every run is the model's room test *)
+Theorem C06_room_test_is_the_source : C06_room_test_is_the_source_stmt. Proof. exact room_test_is_the_source. Qed.
+Print Assumptions C06_room_test_is_the_source.
+(* a request without room (malloc / new / realloc of anything): the state after is the state before, no report, NULL *)
+Theorem C06_refused_request_changes_nothing : C06_refused_request_changes_nothing_stmt. Proof. exact refused_request_changes_nothing. Qed.
+Print Assumptions C06_refused_request_changes_nothing.
+(* a realloc that is not granted (no room / no memory) keeps the record: same lookups, same categories for every later release *)
+Theorem C06_failed_realloc_keeps_block : C06_failed_realloc_keeps_block_stmt. Proof. exact failed_realloc_keeps_block. Qed.
+Print Assumptions C06_failed_realloc_keeps_block.
+Theorem C06_release_after_failed_realloc : C06_release_after_failed_realloc_stmt. Proof. exact release_after_failed_realloc. Qed.
+Print Assumptions C06_release_after_failed_realloc.
+(* EVERY user byte of a block of ANY size is poison when the block reaches free_memory, also when the release is reported *)
+Theorem C06_all_user_bytes_poisoned : C06_all_user_bytes_poisoned_stmt. Proof. exact all_user_bytes_poisoned. Qed.
+Print Assumptions C06_all_user_bytes_poisoned.
+(* the two seeded variants of round 6 are not this model: computed witnesses *)
+Theorem C06_capped_poison_refuted : ~ capped_poison_stmt. Proof. exact capped_poison_refuted. Qed.
+Print Assumptions C06_capped_poison_refuted.
+Theorem C06_late_room_test_refuted : ~ late_room_test_stmt. Proof. exact late_room_test_refuted. Qed.
+Print Assumptions C06_late_room_test_refuted.
 
 (* ------------------------------------------------------------------------------------------------------------------
    The guard check of the model IS the source: validMemoryCorruptionInformation as tools/cxx2gal.py regenerates it from
